@@ -31,7 +31,8 @@ PY
 )
   RES=""
   for c in $CHECKS; do
-    (cd $SNAP && VERIF_REPO=$WT VERIF_OUT=$OUTD timeout 1800 ./check $c --tier quick > $S/check.$c.log 2>&1); RES="$RES $c=$?"
+    LOG=$S/check.$c.log; [ -n "${SEEDRUN_KEY:-}" ] && LOG=/tmp/seedrun/$D.$c.${SEEDRUN_KEY}.log
+    (cd $SNAP && VERIF_REPO=$WT VERIF_OUT=$OUTD timeout 1800 ./check $c --tier quick > $LOG 2>&1); RES="$RES $c=$?"
   done
   git -C /repo worktree remove --force $WT; rm -rf $OUTD
   python3 - $S "$RES" "$(git -C /repo rev-parse --short HEAD)" <<'PY'
@@ -39,7 +40,12 @@ import json,sys,os
 s,res,head=sys.argv[1:4]
 mp=os.path.join(s,'meta.json'); m=json.load(open(mp))
 runs={x.split('=')[0]:int(x.split('=')[1]) for x in res.split()}
-m['checks_run']=runs; m['detected_by']=[k for k,v in runs.items() if v==1]; m['head']=head
+key=os.environ.get('SEEDRUN_KEY','')
+if key:
+    # an additional run (e.g. another VERIF_SEED): recorded next to the main result
+    m.setdefault('other_runs',{})[key]={'checks_run':runs,'detected_by':[k for k,v in runs.items() if v==1],'head':head}
+else:
+    m['checks_run']=runs; m['detected_by']=[k for k,v in runs.items() if v==1]; m['head']=head
 json.dump(m,open(mp,'w'),indent=1)
 PY
   echo "$D:$RES"; }
